@@ -12,7 +12,8 @@ from pathlib import Path
 
 
 def stub_main_cases(src, cases):
-    """cases: [(cwd, [args...], fail)] -> [(argv_seen_by_main as list[str] | None, exit_code, cwd_seen_by_main)]"""
+    """cases: [(cwd, [args...], fail)], fail 0 = main returns, 1 = raises, 2 = bare sys.exit()
+    -> [(argv_seen_by_main as list[str] | None, exit_code, cwd_seen_by_main)]"""
     import geophires_x  # the package; GEOPHIRESv3 is replaced before __main__ imports it
     out = []
     seen = {}
@@ -20,6 +21,8 @@ def stub_main_cases(src, cases):
     def fake_main(*a, **k):
         seen['argv'] = [str(x) for x in sys.argv]
         seen['cwd'] = os.getcwd()
+        if seen['fail'] == 2:
+            sys.exit()          # what UPPReservoir, MPFReservoir, ... do: "will abort simulation"
         if seen['fail']:
             raise RuntimeError('simulated failure of the simulation')
 
